@@ -101,6 +101,29 @@ func OracleC22(c *Cluster) (string, string) {
 			}
 		}
 	}
+	// every replica has applied exactly the commands of its own committed log up to its applied index
+	for _, id := range c.pids {
+		p := c.peers[id]
+		applied := p.Status().Applied
+		ents, _, err := p.VerifLog()
+		if err != nil {
+			continue
+		}
+		var want []string
+		for _, e := range ents {
+			if e.Index <= applied {
+				want = append(want, entryCmdTags(e)...)
+			}
+		}
+		var got []string
+		for _, a := range c.recs[storeOf(id)].list(regionOf(id)) {
+			got = append(got, a.Tag)
+		}
+		if strings.Join(want, ",") != strings.Join(got, ",") {
+			return fmt.Sprintf("applied-differs-from-committed-log region=%d", regionOf(id)),
+				fmt.Sprintf("peer %d reports applied index %d, its log holds commands [%s] up to there, but store %d applied [%s]\n%s", id, applied, strings.Join(want, ","), storeOf(id), strings.Join(got, ","), c.describeCalls())
+		}
+	}
 	// success => applied exactly once, by the answering store
 	for _, call := range c.calls {
 		d, o, _, _ := call.snapshot()
